@@ -2,7 +2,7 @@
 import vlib, proglib
 from proglib import DT, DT_BITS
 
-PROP_FILES = ["Properties_C13.v"]
+PROP_FILES = ["Properties_C13.v", "Properties_refine.v"]
 BIG = 1 << 20
 
 
